@@ -12,7 +12,7 @@ existing channel names, the set of live sessions) directly from the op stream; i
 does not use the model's state or functions.
 
 Op lines (`ch=@k` names the temp channel of slot k):
-  reset local=F | addch ch=C | getch ch=C | delch ch=C | join ch=C front=F id=N |
+  reset local=F [second=G] [nosess=1: the issuing service has no "sessions" component] | addch ch=C | getch ch=C | delch ch=C | join ch=C front=F id=N |
   leave ch=C front=F id=N | bcast ch=C route=R msg=M | alloctemp slot=K | freetemp slot=K |
   sadd | sdel id=N | sclose id=N (the socket of a registered connection closes: its Push fails) | spush ids=N,N route=R data=HEX | syspush ids=.. route=R data=HEX
 large groups (sugar for the obvious sequences of join / leave, observation `ok`):
@@ -29,6 +29,12 @@ address it (`syspush` through the one `sys` entry object both services share).  
 the services f1, f2, f3.  A broadcast observation ends with `sent=` — the `sys.pushmsg` requests
 `impls.PushMessageByIds` sent onward (front/ids/route/payload, non-empty lists only, sorted by front) —
 and `dlb=` — what the connections of the second front-end received from them.
+retained channel handles (`h=N` is the identity of the N-th channel object created in this case — every
+creating operation reports it as `ch=N`; an identity not handed out yet makes the line `bad-op`):
+  hjoin h=N front=F id=X | hleave h=N front=F id=X     c.Add / c.Leave on the retained *Channel
+  hbcast h=N route=R msg=M                             c.PushMessage (observation as for `bcast`)
+  hfree h=N                                            Service.FreeTempChannel(c) = DeleteChannel(c.GetName())
+The object stays usable after its name was deleted or re-bound; the model is `hstep` (`Model/Channel.lean`).
 a membership operation arriving from another goroutine while a broadcast is in flight:
   bcastrace ch=C route=R msg=M front=F act=leave|join id=N
       broadcast on C; when the push layer is handed the tuple for front F (before it reads the id
@@ -94,16 +100,16 @@ def showSent (ps : List Push) : String :=
 
 /-- a broadcast observation also tells what was sent onward and what the second front-end's
 connections got; everything else is `showObs` -/
-def showObsW (lf bname : String) (blive : List Nat) : Obs → String
+def showObsW (st : St) (bname : String) (blive : List Nat) : Obs → String
   | .pushes ps dl =>
-    let sent := forwarded lf directory ps
+    let sent := forwardedFrom st directory ps
     showObs (.pushes ps dl) ++ " " ++ showSent sent ++ " dlb=" ++
       ((showDl (remoteDeliveries ser bname blive sent)).drop 3).toString
   | o => showObs o
 
 /-- parsed op line -/
 inductive Cmd
-  | reset (lf : String) (second : String)
+  | reset (lf : String) (second : String) (nosess : Bool)
   | op (o : Op)
   | many (os : List Op)
   | alloc (slot : String)
@@ -113,6 +119,7 @@ inductive Cmd
   | saddBcast (c route msg : String)
   | sdelPush (id : Nat) (ids : List Nat) (route : String) (data : List Nat)
   | bcastRace (c route msg : String) (after : Op)
+  | hop (u : Nat) (o : HOp)
   | bad
 
 /-- id list in which `self` stands for the id being handed out -/
@@ -129,7 +136,7 @@ def parseCmd (line : String) : Cmd :=
   match ws.head? with
   | some "reset" =>
     match kv ws "local" with
-    | some lf => let g := (kv ws "second").getD ""; .reset lf (if g == lf then "" else g)
+    | some lf => let g := (kv ws "second").getD ""; .reset lf (if g == lf then "" else g) (kv ws "nosess" == some "1")
     | none => .bad
   | some "addch" => match kv ws "ch" with | some c => .op (.addch c) | none => .bad
   | some "getch" => match kv ws "ch" with | some c => .op (.getch c) | none => .bad
@@ -170,6 +177,19 @@ def parseCmd (line : String) : Cmd :=
       else if act == "join" then .bcastRace c r m (.join c f x)
       else .bad
     | _, _, _, _, _, _ => .bad
+  | some "hjoin" =>
+    match (kv ws "h").bind parseU32, kv ws "front", (kv ws "id").bind parseU32 with
+    | some u, some f, some x => .hop u (.hjoin u f x)
+    | _, _, _ => .bad
+  | some "hleave" =>
+    match (kv ws "h").bind parseU32, kv ws "front", (kv ws "id").bind parseU32 with
+    | some u, some f, some x => .hop u (.hleave u f x)
+    | _, _, _ => .bad
+  | some "hbcast" =>
+    match (kv ws "h").bind parseU32, kv ws "route", kv ws "msg" with
+    | some u, some r, some m => .hop u (.hbcast u r m)
+    | _, _, _ => .bad
+  | some "hfree" => match (kv ws "h").bind parseU32 with | some u => .hop u (.hfree u) | none => .bad
   | some "alloctemp" => match kv ws "slot" with | some k => .alloc k | none => .bad
   | some "freetemp" => match kv ws "slot" with | some k => .free k | none => .bad
   | some "sadd" => .op .sadd
@@ -198,58 +218,69 @@ def parseCmd (line : String) : Cmd :=
   | _ => .bad
 
 structure DSt where
-  st : St := init ""
+  hs : HSt := hinit ""
   slots : List String := []
   b : Front := ⟨[], 1, []⟩        -- the second front-end service's sessions
   bname : String := ""        -- its name ("" = there is none)
 
+/-- a by-name operation, through the handle model (so that a deleted object is kept for its holders) -/
+def nstep (h : HSt) (o : Op) : HSt × Obs := hstep ser h (.name o)
+
 def stepCore (d : DSt) (line : String) : DSt × String :=
-  let showObs := showObsW d.st.localFront d.bname d.b.reachable
+  let showObs := showObsW d.hs.st d.bname d.b.reachable
   match parseCmd line with
-  | .reset lf g => ({ st := init lf, slots := [], b := ⟨[], 1, []⟩, bname := g }, "ok")
-  | .op o => let r := step ser d.st o; ({ d with st := r.1 }, showObs r.2)
-  | .many os => ({ d with st := run ser d.st os }, "ok")
-  | .syspush o => let r := step ser d.st o; ({ d with st := r.1 }, showObs r.2 ++ " cb=1")
+  | .reset lf g ns =>
+    ({ hs := if ns then { st := initBackend lf } else hinit lf, slots := [], b := ⟨[], 1, []⟩, bname := g }, "ok")
+  | .op o => let r := nstep d.hs o; ({ d with hs := r.1 }, showObs r.2)
+  | .many os => ({ d with hs := hrun ser d.hs (os.map .name) }, "ok")
+  | .syspush o =>
+    -- sys.pushmsg at a service without a "sessions" component is not exercised (see the check's level_note)
+    if d.hs.st.noSessions then (d, "bad-op")
+    else let r := nstep d.hs o; ({ d with hs := r.1 }, showObs r.2 ++ " cb=1")
+  | .hop u o =>
+    -- a handle exists once the object was created
+    if u == 0 || u > d.hs.st.svc.created then (d, "bad-op")
+    else let r := hstep ser d.hs o; ({ d with hs := r.1 }, showObs r.2)
   | .alloc k =>
     if d.slots.contains k then (d, "bad-op")
     else
-      let r := step ser d.st (.addch ("@" ++ k))
-      ({ d with st := r.1, slots := k :: d.slots }, showObs r.2)
+      let r := nstep d.hs (.addch ("@" ++ k))
+      ({ d with hs := r.1, slots := k :: d.slots }, showObs r.2)
   | .free k =>
     if d.slots.contains k then
-      let r := step ser d.st (.delch ("@" ++ k))
-      ({ d with st := r.1 }, showObs r.2)
+      let r := nstep d.hs (.delch ("@" ++ k))
+      ({ d with hs := r.1 }, showObs r.2)
     else (d, "bad-op")
   | .saddPush ids route data =>
     -- AddSession registers the connection, then OnSessionAdd runs the push
-    let r1 := step ser d.st .sadd
+    let r1 := nstep d.hs .sadd
     match r1.2 with
     | .added id _ =>
-      let r2 := step ser r1.1 (.spush (ids.map fun o => o.getD id) route data)
-      ({ d with st := r2.1 }, showObs r1.2 ++ " " ++ showObs r2.2)
+      let r2 := nstep r1.1 (.spush (ids.map fun o => o.getD id) route data)
+      ({ d with hs := r2.1 }, showObs r1.2 ++ " " ++ showObs r2.2)
     | _ => (d, "bad-op")
   | .saddBcast c route msg =>
     -- AddSession registers the connection, then OnSessionAdd joins the channel and broadcasts
-    let r1 := step ser d.st .sadd
+    let r1 := nstep d.hs .sadd
     match r1.2 with
     | .added id _ =>
-      let r2 := step ser r1.1 (.join c r1.1.localFront id)
-      let r3 := step ser r2.1 (.bcast c route msg)
-      ({ d with st := r3.1 }, showObs r1.2 ++ " " ++ showObs r2.2 ++ " bcast: " ++ showObs r3.2)
+      let r2 := nstep r1.1 (.join c r1.1.st.localFront id)
+      let r3 := nstep r2.1 (.bcast c route msg)
+      ({ d with hs := r3.1 }, showObs r1.2 ++ " " ++ showObs r2.2 ++ " bcast: " ++ showObs r3.2)
     | _ => (d, "bad-op")
   | .sdelPush id ids route data =>
     -- RemoveSession deletes the connection, then (only if it existed) OnSessionRemove runs the push
-    let r1 := step ser d.st (.sdel id)
+    let r1 := nstep d.hs (.sdel id)
     match r1.2 with
     | .removed true _ =>
-      let r2 := step ser r1.1 (.spush ids route data)
-      ({ d with st := r2.1 }, showObs r1.2 ++ " " ++ showObs r2.2)
-    | _ => ({ d with st := r1.1 }, showObs r1.2 ++ " dl=")
+      let r2 := nstep r1.1 (.spush ids route data)
+      ({ d with hs := r2.1 }, showObs r1.2 ++ " " ++ showObs r2.2)
+    | _ => ({ d with hs := r1.1 }, showObs r1.2 ++ " dl=")
   | .bcastRace c route msg o =>
     -- the push consumes the snapshot; the concurrent operation takes effect afterwards
-    let r1 := step ser d.st (.bcast c route msg)
-    let r2 := step ser r1.1 o
-    ({ d with st := r2.1 }, showObs r1.2)
+    let r1 := nstep d.hs (.bcast c route msg)
+    let r2 := nstep r1.1 o
+    ({ d with hs := r2.1 }, showObs r1.2)
   | .bad => (d, "bad-op")
 
 def sessionHeads : List String := ["sadd", "sdel", "sclose", "spush", "syspush"]
@@ -265,6 +296,8 @@ def atB (line : String) : Option (Option String) :=
     | some _ => Option.none
   else some none
 
+def withFront (h : HSt) (fr : Front) (ns : Bool) : HSt := { h with st := { h.st with front := fr, noSessions := ns } }
+
 def stepLine (d : DSt) (line : String) : DSt × String :=
   match atB line with
   | none => (d, "bad-op")
@@ -272,15 +305,17 @@ def stepLine (d : DSt) (line : String) : DSt × String :=
   | some (some inner) =>
     if d.bname == "" then (d, "bad-op")
     else
-      let r := stepCore { d with st := { d.st with front := d.b }, b := d.st.front } inner
-      ({ r.1 with st := { r.1.st with front := d.st.front }, b := r.1.st.front }, r.2)
+      -- the second front-end service always has the component
+      let r := stepCore { d with hs := withFront d.hs d.b false, b := d.hs.st.front } inner
+      ({ r.1 with hs := withFront r.1.hs d.hs.st.front d.hs.st.noSessions, b := r.1.hs.st.front }, r.2)
 
 /-! ### the property predicate on implementation observations -/
 
 structure Spec where
   lf : String := ""
-  chans : List (String × Nat) := []                  -- existing channel names and their identity
-  grp : List ((String × String) × List Nat) := []    -- (channel, front) ↦ listed ids; present = addressed
+  chans : List (String × Nat) := []                  -- existing channel names and the object each denotes
+  names : List (Nat × String) := []                  -- every object created so far and the name it was created under
+  grp : List ((Nat × String) × List Nat) := []       -- (object, front) ↦ listed ids; present = addressed
   created : Nat := 0
   live : List Nat := []
   closed : List Nat := []                            -- registered connections whose socket has closed
@@ -288,38 +323,62 @@ structure Spec where
   closedB : List Nat := []
   bname : String := ""
   slots : List String := []
+  nosess : Bool := false                             -- the issuing service has no "sessions" component
   dead : Bool := false                               -- a crash was reported: nothing more is judged until the next reset
 
-def Spec.group (s : Spec) (c f : String) : Option (List Nat) :=
-  (s.grp.find? (fun e => e.1.1 == c && e.1.2 == f)).map (·.2)
+def Spec.uidOf (s : Spec) (c : String) : Option Nat := (s.chans.find? (·.1 == c)).map (·.2)
 
-def Spec.setGroup (s : Spec) (c f : String) (l : List Nat) : Spec :=
-  if (s.group c f).isSome then
-    { s with grp := s.grp.map fun e => if e.1.1 == c && e.1.2 == f then (e.1, l) else e }
-  else { s with grp := s.grp ++ [((c, f), l)] }
+def Spec.groupU (s : Spec) (u : Nat) (f : String) : Option (List Nat) :=
+  (s.grp.find? (fun e => e.1.1 == u && e.1.2 == f)).map (·.2)
+
+def Spec.group (s : Spec) (c f : String) : Option (List Nat) := (s.uidOf c).bind fun u => s.groupU u f
+
+def Spec.setGroupU (s : Spec) (u : Nat) (f : String) (l : List Nat) : Spec :=
+  if (s.groupU u f).isSome then
+    { s with grp := s.grp.map fun e => if e.1.1 == u && e.1.2 == f then (e.1, l) else e }
+  else { s with grp := s.grp ++ [((u, f), l)] }
 
 /-- connections a push can reach: registered and open -/
 def Spec.eff (s : Spec) : List Nat := s.live.filter fun i => !s.closed.contains i
 def Spec.effB (s : Spec) : List Nat := s.liveB.filter fun i => !s.closedB.contains i
 
-def Spec.uidOf (s : Spec) (c : String) : Option Nat := (s.chans.find? (·.1 == c)).map (·.2)
-
 def Spec.create (s : Spec) (c : String) : Spec :=
-  { s with chans := s.chans ++ [(c, s.created + 1)], created := s.created + 1 }
+  { s with chans := s.chans ++ [(c, s.created + 1)], names := s.names ++ [(s.created + 1, c)], created := s.created + 1 }
 
-def Spec.delete (s : Spec) (c : String) : Spec :=
-  { s with chans := s.chans.filter (·.1 != c), grp := s.grp.filter (·.1.1 != c) }
+/-- deleting a name unbinds it; the object (and what it lists) stays with whoever holds it -/
+def Spec.delete (s : Spec) (c : String) : Spec := { s with chans := s.chans.filter (·.1 != c) }
 
 def Spec.ensure (s : Spec) (c : String) : Spec := if (s.uidOf c).isSome then s else s.create c
+
+def Spec.joinU (s : Spec) (u : Nat) (f : String) (x : Nat) : Spec := s.setGroupU u f ((s.groupU u f).getD [] ++ [x])
+
+def Spec.leaveU (s : Spec) (u : Nat) (f : String) (x : Nat) : Spec :=
+  match s.groupU u f with
+  | some l => s.setGroupU u f (l.erase x)
+  | none => s
 
 /-- bookkeeping of one membership operation (what the property statement says it means) -/
 def Spec.apply (s : Spec) : Op → Spec
   | .addch c => s.ensure c
   | .delch c => s.delete c
-  | .join c f x => let s1 := s.ensure c; s1.setGroup c f ((s1.group c f).getD [] ++ [x])
+  | .join c f x =>
+    let s1 := s.ensure c
+    match s1.uidOf c with
+    | some u => s1.joinU u f x
+    | none => s1
   | .leave c f x =>
-    match s.group c f with
-    | some l => s.setGroup c f (l.erase x)
+    match s.uidOf c with
+    | some u => s.leaveU u f x
+    | none => s
+  | _ => s
+
+/-- the same for the operations on a retained handle -/
+def Spec.applyH (s : Spec) : HOp → Spec
+  | .hjoin u f x => s.joinU u f x
+  | .hleave u f x => s.leaveU u f x
+  | .hfree u =>
+    match s.names.find? (·.1 == u) with
+    | some e => s.delete e.2
     | none => s
   | _ => s
 
@@ -361,12 +420,12 @@ def brief (l : List Nat) : String :=
   if l.length ≤ 24 then showIds l else s!"{showIds (l.take 8)},..({l.length} ids)..,{showIds (l.drop (l.length - 4))}"
 
 /-- the property on one broadcast observation, against the monitor's own bookkeeping -/
-def checkBcast (s : Spec) (c route msg obs : String) : Option String :=
-  match s.uidOf c with
+def checkBcastU (s : Spec) (target : Option Nat) (c route msg obs : String) : Option String :=
+  match target with
   | none =>
     if obs == "nil" then none
     else some s!"deleted-or-unknown-channel-addressed channel {c} does not exist but the broadcast produced: {obs}"
-  | some _ =>
+  | some u =>
     if obs == "nil" then some s!"existing-channel-not-found channel {c} exists"
     else
     match obs.splitOn " | " with
@@ -377,8 +436,8 @@ def checkBcast (s : Spec) (c route msg obs : String) : Option String :=
       | some ps, some dl, some once =>
         let fronts := ps.map (·.front)
         -- fronts the property wants addressed: those with at least one listed id
-        let want := (s.grp.filter (fun e => e.1.1 == c && !e.2.isEmpty)).map (·.1.2)
-        let listedFor (f : String) : List Nat := (s.group c f).getD []
+        let want := (s.grp.filter (fun e => e.1.1 == u && !e.2.isEmpty)).map (·.1.2)
+        let listedFor (f : String) : List Nat := (s.groupU u f).getD []
         if once != "1" || fronts.eraseDups.length != fronts.length then
           some s!"front-addressed-twice a front-end is addressed more than once in one broadcast: {obs.take 300}"
         else match want.find? (fun f => !fronts.contains f) with
@@ -391,10 +450,11 @@ def checkBcast (s : Spec) (c route msg obs : String) : Option String :=
         match ps.find? (fun p => p.route != route || p.msg != msg) with
         | some p => some s!"wrong-route-or-payload front={p.front} route={p.route} msg={p.msg}"
         | none =>
-          let wantDl := expectDl s.eff (listedFor s.lf) route (hexOfBytes (ser msg))
+          -- in place only if the issuing service has a "sessions" component
+          let wantDl := if s.nosess then [] else expectDl s.eff (listedFor s.lf) route (hexOfBytes (ser msg))
           let hex := hexOfBytes (ser msg)
           -- one sys.pushmsg per other known front-end that has listed members, carrying exactly its list
-          let remote := ((directory.filter (fun f => f != s.lf && !(listedFor f).isEmpty)).map fun f =>
+          let remote := ((directory.filter (fun f => (f != s.lf || s.nosess) && !(listedFor f).isEmpty)).map fun f =>
             s!"{f}/{showIds (listedFor f)}/{route}/{hex}")
           let wantSent := ";".intercalate remote
           let wantDlb := if s.bname != "" && s.bname != s.lf && directory.contains s.bname
@@ -412,6 +472,9 @@ def checkBcast (s : Spec) (c route msg obs : String) : Option String :=
       | _, _, _ => some ("unparseable-observation " ++ obs.take 300)
     | _ => some ("unparseable-observation " ++ obs.take 300)
 
+/-- a broadcast by name: on the object the name denotes now -/
+def checkBcast (s : Spec) (c route msg obs : String) : Option String := checkBcastU s (s.uidOf c) c route msg obs
+
 def viol (reason op : String) : String := "VIOLATION C16/" ++ reason ++ " | op: " ++ op
 
 def specCore (s : Spec) (line : String) : Spec × String :=
@@ -425,7 +488,7 @@ def specCore (s : Spec) (line : String) : Spec × String :=
     let expectOk (what : String) : Option String := if obs == "ok" then none else some (what ++ " " ++ obs)
     match parseCmd op with
     | .bad => (s, "ok")
-    | .reset lf g => ({ lf := lf, bname := g }, "ok")
+    | .reset lf g ns => ({ lf := lf, bname := g, nosess := ns }, "ok")
     | .alloc k =>
       if s.slots.contains k then (s, "ok")
       else
@@ -441,6 +504,15 @@ def specCore (s : Spec) (line : String) : Spec × String :=
     | .op (.join c f x) => out (s.apply (.join c f x)) (checkUid s c obs true)
     | .op (.leave c f x) => out (s.apply (.leave c f x)) (expectOk "leave-failed")
     | .op (.bcast c route msg) => out s (checkBcast s c route msg obs)
+    | .hop u o =>
+      if u == 0 || u > s.created then (s, "ok")   -- no such object yet: the line is malformed
+      else
+        match o with
+        | .hbcast _ route msg =>
+          -- a retained object is addressed whether or not a name still denotes it
+          out s ((checkBcastU s (some u) s!"#{u}" route msg obs).map fun why => why ++ s!" (broadcast through the retained handle #{u})")
+        | .hfree _ => out (s.applyH o) (expectOk "delete-failed")
+        | _ => out (s.applyH o) (expectOk "membership-op-failed")
     | .bcastRace c route msg o =>
       -- every front must receive the membership as it was when the broadcast was issued
       out (s.apply o) ((checkBcast s c route msg obs).map fun why =>
@@ -466,6 +538,7 @@ def specCore (s : Spec) (line : String) : Spec × String :=
       let w := showExpDl (expectDl s.eff ids route (hexOfBytes data))
       out s (if obs == w then none else some s!"front-fanout-mismatch want [{w}] got [{obs}] registered [{showIds s.live}] closed [{showIds s.closed}]")
     | .syspush (.spush ids route data) =>
+      if s.nosess then (s, "ok") else
       let w := showExpDl (expectDl s.eff ids route (hexOfBytes data))
       if obs == w ++ " cb=1" then out s none
       else if obs.startsWith (w ++ " cb=") then out s (some s!"pushmsg-callback-count {obs}")
@@ -521,8 +594,8 @@ def specStep (s : Spec) (line : String) : Spec × String :=
       if s.bname == "" || s.dead then (s, "ok")
       else
         -- the same predicate, on the second front-end's own connection table
-        let r := specCore { s with live := s.liveB, liveB := s.live, closed := s.closedB, closedB := s.closed } (inner ++ "\t" ++ obs)
-        ({ r.1 with live := r.1.liveB, liveB := r.1.live, closed := r.1.closedB, closedB := r.1.closed },
+        let r := specCore { s with live := s.liveB, liveB := s.live, closed := s.closedB, closedB := s.closed, nosess := false } (inner ++ "\t" ++ obs)
+        ({ r.1 with live := r.1.liveB, liveB := r.1.live, closed := r.1.closedB, closedB := r.1.closed, nosess := s.nosess },
           if r.2.startsWith "VIOLATION" then r.2 ++ " (addressed to the second front-end " ++ s.bname ++ ")" else r.2)
     | none => (s, "ok")
     | some none => specCore s line
